@@ -303,3 +303,232 @@ if __name__ == '__main__':
     import sys
     if sys.argv[1:] == ['pin']:
         print(len(write_pinned()), 'modules pinned')
+
+
+# ------------------------------------------------------------------ behaviour-preserving normal forms
+# Applied to every module the translators read, after helper inlining.  Each rewrite maps a statement pattern to an
+# equivalent one (the side conditions are checked syntactically and the rewrite is skipped when they do not hold),
+# so that common refactorings read as the same program.  A rewrite that is wrong would make the translated program
+# differ from the running code; the driver runs the translated programs against the real methods on every check.
+
+def _own_level(stmts, kinds):
+    """statements of kind `kinds` (Continue / Break) that belong to the loop whose body is `stmts`"""
+    found = []
+
+    def go(block):
+        for s in block:
+            if isinstance(s, kinds):
+                found.append(s)
+            if isinstance(s, (ast.For, ast.While, ast.FunctionDef, ast.ClassDef, ast.AsyncFor)):
+                if isinstance(s, (ast.For, ast.While)):
+                    go(s.orelse)      # the else block of an inner loop belongs to the outer one
+                continue
+            for fld in ('body', 'orelse', 'finalbody'):
+                sub = getattr(s, fld, None)
+                if isinstance(sub, list):
+                    go(sub)
+            for h in getattr(s, 'handlers', []) or []:
+                go(h.body)
+    go(stmts)
+    return found
+
+
+def _negate(e):
+    if isinstance(e, ast.UnaryOp) and isinstance(e.op, ast.Not):
+        return e.operand
+    if isinstance(e, ast.Compare) and len(e.ops) == 1:
+        inv = {ast.Eq: ast.NotEq, ast.NotEq: ast.Eq, ast.Is: ast.IsNot, ast.IsNot: ast.Is, ast.In: ast.NotIn, ast.NotIn: ast.In}
+        # only the exact complements; `<` is not the complement of `>=` in the presence of NaN or rich comparisons
+        if type(e.ops[0]) in inv and (type(e.ops[0]) in (ast.Is, ast.IsNot) or _is_len_or_const(e)):
+            return ast.Compare(left=e.left, ops=[inv[type(e.ops[0])]()], comparators=e.comparators)
+    return ast.UnaryOp(op=ast.Not(), operand=e)
+
+
+def _is_len_or_const(e):
+    """comparison between integers known syntactically (len(...) and integer literals): `!=` is `not ==` there"""
+    def ok(x):
+        return (isinstance(x, ast.Constant) and type(x.value) is int) or \
+            (isinstance(x, ast.Call) and isinstance(x.func, ast.Name) and x.func.id == 'len')
+    return ok(e.left) and ok(e.comparators[0])
+
+
+def _loads(node, name):
+    return sum(1 for n in ast.walk(node) if isinstance(n, ast.Name) and n.id == name and isinstance(n.ctx, ast.Load))
+
+
+def _stores(node, name):
+    k = 0
+    for n in ast.walk(node):
+        if isinstance(n, ast.Name) and n.id == name and isinstance(n.ctx, (ast.Store, ast.Del)):
+            k += 1
+        if isinstance(n, ast.AugAssign) and isinstance(n.target, ast.Name) and n.target.id == name:
+            k += 0   # the target Name already counts as a Store
+    return k
+
+
+def _loads_outside_binders(fn, name):
+    """loads of `name` that are not inside a `for name in …` body or a comprehension binding `name`"""
+    total = _loads(fn, name)
+    inside = 0
+    for n in ast.walk(fn):
+        if isinstance(n, ast.For) and isinstance(n.target, ast.Name) and n.target.id == name:
+            inside += sum(_loads(b, name) for b in n.body)
+        elif isinstance(n, (ast.ListComp, ast.SetComp, ast.GeneratorExp, ast.DictComp)) \
+                and any(isinstance(g.target, ast.Name) and g.target.id == name for g in n.generators):
+            inside += _loads(n, name)
+    return total - inside
+
+
+def _norm_block(block, fn, in_loop):
+    """one pass over a statement list; returns the rewritten list"""
+    out = []
+    i = 0
+    block = list(block)
+    while i < len(block):
+        st = block[i]
+        nxt = block[i + 1] if i + 1 < len(block) else None
+        # N1 guard clause: `if C: continue` + REST  ->  `if not C: REST`   (directly in a loop body)
+        if in_loop and isinstance(st, ast.If) and not st.orelse and len(st.body) == 1 and isinstance(st.body[0], ast.Continue) \
+                and i + 1 < len(block):
+            rest = _norm_block(block[i + 1:], fn, in_loop)
+            out.append(ast.If(test=_negate(st.test), body=rest, orelse=[]))
+            return out
+        # N6 / N7 a branch that ends in a jump: `if C: …raise  else: E` -> `if C: …raise` ; E
+        #         and `if C: B  else: …raise` -> `if not C: …raise` ; B
+        if isinstance(st, ast.If) and st.orelse and st.body:
+            jump = (ast.Raise, ast.Return, ast.Continue, ast.Break)
+            if isinstance(st.body[-1], jump):
+                block[i:i + 1] = [ast.If(test=st.test, body=st.body, orelse=[])] + list(st.orelse)
+                continue
+            if isinstance(st.orelse[-1], jump) and not (len(st.orelse) == 1 and isinstance(st.orelse[0], ast.If)):
+                block[i:i + 1] = [ast.If(test=_negate(st.test), body=st.orelse, orelse=[])] + list(st.body)
+                continue
+        # N2 explicit counter: `k = 0` ; `for a in X: BODY; k += 1`  ->  `for k, a in enumerate(X): BODY`
+        if isinstance(st, ast.Assign) and len(st.targets) == 1 and isinstance(st.targets[0], ast.Name) \
+                and isinstance(st.value, ast.Constant) and st.value.value == 0 and type(st.value.value) is int \
+                and isinstance(nxt, ast.For) and not nxt.orelse and nxt.body:
+            k = st.targets[0].id
+            last = nxt.body[-1]
+            if isinstance(last, ast.AugAssign) and isinstance(last.op, ast.Add) and isinstance(last.target, ast.Name) and last.target.id == k \
+                    and isinstance(last.value, ast.Constant) and last.value.value == 1 and type(last.value.value) is int \
+                    and not _own_level(nxt.body, (ast.Continue,)) \
+                    and _stores(fn, k) == 2 and _loads(fn, k) == _loads(ast.Module(body=nxt.body[:-1], type_ignores=[]), k) \
+                    and not (isinstance(nxt.iter, ast.Call) and isinstance(nxt.iter.func, ast.Name) and nxt.iter.func.id == 'enumerate') \
+                    and _loads(nxt.iter, k) == 0:
+                new = ast.For(target=ast.Tuple(elts=[ast.Name(id=k, ctx=ast.Store()), nxt.target], ctx=ast.Store()),
+                              iter=ast.Call(func=ast.Name(id='enumerate', ctx=ast.Load()), args=[nxt.iter], keywords=[]),
+                              body=nxt.body[:-1] or [ast.Pass()], orelse=[], type_comment=None)
+                block[i:i + 2] = [new]
+                continue
+        # N3 single-use temporary: `t = E` ; `TARGET = t` / `return t`  ->  `TARGET = E` / `return E`
+        if isinstance(st, ast.Assign) and len(st.targets) == 1 and isinstance(st.targets[0], ast.Name) and nxt is not None:
+            t = st.targets[0].id
+            if _stores(fn, t) == 1 and _loads(fn, t) == 1:
+                if isinstance(nxt, ast.Assign) and len(nxt.targets) == 1 and isinstance(nxt.value, ast.Name) and nxt.value.id == t \
+                        and not isinstance(nxt.targets[0], ast.Name):
+                    block[i:i + 2] = [ast.Assign(targets=nxt.targets, value=st.value, type_comment=None)]
+                    continue
+                if isinstance(nxt, ast.Return) and isinstance(nxt.value, ast.Name) and nxt.value.id == t:
+                    block[i:i + 2] = [ast.Return(value=st.value)]
+                    continue
+        # N4 list built by a loop: `out = []` ; `for v in X: out.append(E)`  ->  `out = [E for v in X]`
+        if isinstance(st, ast.Assign) and len(st.targets) == 1 and isinstance(st.targets[0], ast.Name) \
+                and isinstance(st.value, ast.List) and not st.value.elts and isinstance(nxt, ast.For) and not nxt.orelse \
+                and len(nxt.body) == 1 and isinstance(nxt.target, ast.Name):
+            o, v = st.targets[0].id, nxt.target.id
+            b = nxt.body[0]
+            if isinstance(b, ast.Expr) and isinstance(b.value, ast.Call) and isinstance(b.value.func, ast.Attribute) \
+                    and b.value.func.attr == 'append' and isinstance(b.value.func.value, ast.Name) and b.value.func.value.id == o \
+                    and len(b.value.args) == 1 and not b.value.keywords and _loads(b.value.args[0], o) == 0 and _loads(nxt.iter, o) == 0 \
+                    and _loads_outside_binders(fn, v) == 0 and _stores(nxt.body[0], v) == 0:
+                comp = ast.ListComp(elt=b.value.args[0], generators=[ast.comprehension(target=nxt.target, iter=nxt.iter, ifs=[], is_async=0)])
+                block[i:i + 2] = [ast.Assign(targets=st.targets, value=comp, type_comment=None)]
+                continue
+        # N5 loop flag: `f = True` ; `while f: BODY; f = C`  ->  `while True: BODY; if not C: break`
+        if isinstance(st, ast.Assign) and len(st.targets) == 1 and isinstance(st.targets[0], ast.Name) \
+                and isinstance(st.value, ast.Constant) and st.value.value is True and isinstance(nxt, ast.While) and not nxt.orelse \
+                and isinstance(nxt.test, ast.Name) and nxt.test.id == st.targets[0].id and nxt.body:
+            f = st.targets[0].id
+            last = nxt.body[-1]
+            if isinstance(last, ast.Assign) and len(last.targets) == 1 and isinstance(last.targets[0], ast.Name) and last.targets[0].id == f \
+                    and _stores(fn, f) == 2 and _loads(fn, f) == 1 and not _own_level(nxt.body, (ast.Continue,)):
+                new = ast.While(test=ast.Constant(value=True), body=nxt.body[:-1] + [ast.If(test=_negate(last.value), body=[ast.Break()], orelse=[])],
+                                orelse=[])
+                block[i:i + 2] = [new]
+                continue
+        # recurse
+        for fld in ('body', 'orelse', 'finalbody'):
+            sub = getattr(st, fld, None)
+            if isinstance(sub, list) and sub and isinstance(sub[0], ast.stmt) and not isinstance(st, (ast.FunctionDef, ast.ClassDef)):
+                loop_body = isinstance(st, (ast.For, ast.While)) and fld == 'body'
+                setattr(st, fld, _norm_block(sub, fn, loop_body if isinstance(st, (ast.For, ast.While)) else (in_loop and not isinstance(st, (ast.With, ast.Try)) and False)))
+        for h in getattr(st, 'handlers', []) or []:
+            h.body = _norm_block(h.body, fn, False)
+        out.append(st)
+        i += 1
+    return out
+
+
+OBJECTIVE_CALLS = {'function', 'function.pointer'}
+
+
+def _canon_locals(fn):
+    """role-based names for two locals the sweep translators speak about: the local that receives the objective's value
+    is called `fit`, the index of the one `enumerate` loop is called `i` (only when those names are free)"""
+    ren = {}
+    bound = {n.id for n in ast.walk(fn) if isinstance(n, ast.Name) and isinstance(n.ctx, ast.Store)} | {a.arg for a in fn.args.args}
+    fits = {st.targets[0].id for st in ast.walk(fn) if isinstance(st, ast.Assign) and len(st.targets) == 1 and isinstance(st.targets[0], ast.Name)
+            and isinstance(st.value, ast.Call) and ast.unparse(st.value.func) in OBJECTIVE_CALLS}
+    if len(fits) == 1 and 'fit' not in bound:
+        ren[next(iter(fits))] = 'fit'
+    enums = [st for st in ast.walk(fn) if isinstance(st, ast.For) and isinstance(st.iter, ast.Call) and isinstance(st.iter.func, ast.Name)
+             and st.iter.func.id == 'enumerate' and isinstance(st.target, ast.Tuple) and st.target.elts and isinstance(st.target.elts[0], ast.Name)]
+    if len(enums) == 1 and 'i' not in bound and _stores(fn, enums[0].target.elts[0].id) == 1:
+        ren[enums[0].target.elts[0].id] = 'i'
+    if ren:
+        for n in ast.walk(fn):
+            if isinstance(n, ast.Name) and n.id in ren:
+                n.id = ren[n.id]
+    return fn
+
+
+class _FoldFStrings(ast.NodeTransformer):
+    """N8 an f-string all of whose fields are string literals (after a helper's argument was substituted) is that string"""
+    def visit_JoinedStr(self, node):
+        self.generic_visit(node)
+        parts = []
+        for v in node.values:
+            if isinstance(v, ast.Constant) and isinstance(v.value, str):
+                parts.append(v.value)
+            elif isinstance(v, ast.FormattedValue) and isinstance(v.value, ast.Constant) and isinstance(v.value.value, str) \
+                    and v.conversion == -1 and v.format_spec is None:
+                parts.append(v.value.value)
+            else:
+                return node
+        return ast.copy_location(ast.Constant(value=''.join(parts)), node)
+
+
+def normalise_tree(tree):
+    tree = _FoldFStrings().visit(tree)
+    for fn in [n for n in ast.walk(tree) if isinstance(n, ast.FunctionDef)]:
+        for _ in range(4):
+            before = ast.dump(fn)
+            fn.body = _norm_block(fn.body, fn, False)
+            if ast.dump(fn) == before:
+                break
+        _canon_locals(fn)
+    ast.fix_missing_locations(tree)
+    return tree
+
+
+_parse_inlined = parse
+
+
+def parse(path):
+    tree = _parse_inlined(path)
+    if os.environ.get('VERIF_NO_NORMALISE'):
+        return tree
+    try:
+        return normalise_tree(copy.deepcopy(tree))
+    except Exception:
+        return tree
